@@ -2,6 +2,7 @@
 from __future__ import annotations
 
 import ast
+import os
 from typing import Any, Iterator
 
 import z3
@@ -9,6 +10,7 @@ import z3
 from . import values as V
 from .contract import Contract, Sort
 from .engine_expr import Ctx, Res, _kind, bind
+from .engine_base import _has_quantifier as _hq
 from .engine_stmt import NORMAL, Out, StmtMixin
 from .source import ClassInfo, FuncInfo
 from .state import ClauseError, Env, State
@@ -348,6 +350,19 @@ class CallMixin(StmtMixin):
             st_a = env_a.st.assume(*post.values())
             if len(alts) > 1:
                 if not self.feasible(st_a):
+                    if os.environ.get("PYVC_DBG") == "1":
+                        import z3 as _z3
+                        sv = _z3.Solver()
+                        names = {}
+                        for i, (lab, g) in enumerate(post.items()):
+                            if is_z3(g) and not _hq(g):
+                                p_ = _z3.Bool(f"lab_{lab}")
+                                names[str(p_)] = lab
+                                sv.assert_and_track(g, p_)
+                        for i, cnd in enumerate(st_n.pc):
+                            if is_z3(cnd) and not _hq(cnd):
+                                sv.assert_and_track(cnd, _z3.Bool(f"pc_{i}"))
+                        print("  alt", alts.index(alt), "infeasible:", sv.check(), [str(x) for x in sv.unsat_core()][:12])
                     continue
                 st_a = st_a.with_note(f"L{line}:{c.key.split('.')[-1]}#{alts.index(alt)}")
             yield st_a, res
